@@ -12,6 +12,7 @@ G1..G5 are asserted on the interpreter events, not on outputs.
 import ast
 import dis
 import json
+import re
 import os
 import sys
 import types
@@ -1018,6 +1019,9 @@ def warm_up():
     _warm[0] = True
 
 
+_ADDR = re.compile(r"0x[0-9a-fA-F]{6,}")
+
+
 def _world_digest(world, snap):
     """Digest of the tree with the (pid-dependent) world root spelt symbolically: absolute paths never enter a digest."""
     out = []
@@ -1025,7 +1029,10 @@ def _world_digest(world, snap):
         ent = snap[rel]
         if ent[0] == "f":
             text = world.read(rel) or ""
-            out.append((rel, "f", digest_of(text.replace(world.root, "{ROOT}")), ent[3]))
+            # object addresses that cdd writes into its output (`<ast.Call object at 0x7f...>`, the defect recorded as
+            # F-C10-2, reachable here with black absent) differ from process to process: that is C10's subject, and would
+            # otherwise make this check's outcome digest non-reproducible
+            out.append((rel, "f", digest_of(_ADDR.sub("0x?", text.replace(world.root, "{ROOT}"))), ent[3]))
         else:
             out.append((rel, ent[0], ent[2] if ent[0] == "l" else "", ent[3]))
     return digest_of(out)
@@ -1204,6 +1211,9 @@ def simulate(plan):
     res.trace = {"kind": "c17-plan", "plan": plan,
                  "files": {k: v for k, v in render_files(spec).items() if k in ("m.py",)}}
     res.digest = digest_of(history)
+    if os.environ.get("CDDSIM_C17_DEBUG"):   # determinism debugging only: the recorded history of every run
+        with open("%s-%d.jsonl" % (os.environ["CDDSIM_C17_DEBUG"], os.getpid()), "a") as f_:
+            f_.write(json.dumps({"plan": res.plan_digest, "digest": res.digest, "history": history, "fullplan": plan}, default=repr) + "\n")
     res.nontrivial = completed_with_payload and any(probe.values())
     res.sample = {"m.py": render_files(spec)["m.py"][:1800], "history": history[:12]}
     return res
